@@ -252,7 +252,7 @@ func runArrive(c *rig.Ctx, cs Case, m mode) int {
 	for _, s := range f.servers {
 		urls = append(urls, s.URL)
 	}
-	g := clientsets.VerifC13NewClientSets(&rest.Config{Host: urls[0], QPS: 10000, Burst: 10000}, func(string) []string { return urls })
+	g := clientsets.VerifC13NewClientSets(&rest.Config{Host: urls[0], QPS: 10000, Burst: 10000, Timeout: 5 * time.Second}, func(string) []string { return urls })
 	ctx, cancel := context.WithCancel(context.Background())
 	names := unhexAll(cs.Names)
 	var uls []flowcontrols.UpstreamLimiter
